@@ -52,20 +52,21 @@ var errC19Fault = errors.New("verif: injected failure")
 
 // the controller: every effect on the shared state happens under mu and is logged in that order
 type c19ctl struct {
-	mu      sync.Mutex
-	log     []string // Coq trace items
-	hlog    []string // readable
-	blobs   []*c19blob
-	byRef   map[blob.Ref]*c19blob
-	src     *memory.Storage
-	destRaw map[blob.Ref]string // what the destination holds, byte for byte
-	queue   sorted.KeyValue     // the real rows
-	plan    map[string][]string // "fetch/3" -> outcomes for successive attempts
-	gates   map[string]chan struct{}
-	arrive  map[string]chan struct{}
-	inc     *c19inc // current incarnation
-	acked   map[int]bool
-	nev     map[string]int
+	destDown bool // every destination write fails while set
+	mu       sync.Mutex
+	log      []string // Coq trace items
+	hlog     []string // readable
+	blobs    []*c19blob
+	byRef    map[blob.Ref]*c19blob
+	src      *memory.Storage
+	destRaw  map[blob.Ref]string // what the destination holds, byte for byte
+	queue    sorted.KeyValue     // the real rows
+	plan     map[string][]string // "fetch/3" -> outcomes for successive attempts
+	gates    map[string]chan struct{}
+	arrive   map[string]chan struct{}
+	inc      *c19inc // current incarnation
+	acked    map[int]bool
+	nev      map[string]int
 }
 
 type c19blob struct {
@@ -228,6 +229,9 @@ func (d *c19dest) ReceiveBlob(ctx context.Context, br blob.Ref, r io.Reader) (bl
 		return blob.SizedRef{}, errors.New("unknown blob")
 	}
 	out := ct.next("dest", b.id)
+	if ct.destDown {
+		out = "err" // the destination is unreachable for now
+	}
 	switch out {
 	case "crash":
 		ct.crashLocked(fmt.Sprintf("before the destination write of #%d", b.id))
@@ -512,11 +516,10 @@ func c19Scenario(c *ctx, si int, big bool) {
 	}
 	outcomes := map[string][]string{"fetch": {"err", "wrongsize", "corrupt", "crash"}, "dest": {"err", "wrongsize", "crash"}, "qset": {"err", "crash"}, "qdel": {"err", "crash"}}
 	if big {
-		// everything pending at once: hold the destination down, upload all, then let it drain in two batches
+		// everything pending at once: the destination is down while all the uploads are made (every copy attempt fails), then
+		// it comes back and more than a thousand pending blobs must drain - more than one copy batch
 		ct.mu.Lock()
-		for _, b := range ct.blobs {
-			ct.plan[fmt.Sprintf("dest/%d", b.id)] = []string{"err"}
-		}
+		ct.destDown = true
 		ct.mu.Unlock()
 		faults++
 		for _, b := range ct.blobs {
@@ -524,6 +527,9 @@ func c19Scenario(c *ctx, si int, big bool) {
 		}
 		ct.settle(20 * time.Second)
 		check("all uploads made, destination was down")
+		ct.mu.Lock()
+		ct.destDown = false
+		ct.mu.Unlock()
 	} else {
 		for i := 0; i < nb; i++ {
 			b := ct.blobs[i]
